@@ -158,6 +158,8 @@ def dec(x):
         return [dec(y) for y in x]
     return x
 for line in sys.stdin:
+    if not line.strip():
+        continue
     q = dec(json.loads(line))
     print(hash(Inquiry(**q)))
 '''
@@ -294,7 +296,7 @@ def run(ctx):
     # process stability: the same hashes in fresh interpreters started with other PYTHONHASHSEED values
     seeds = ['0', '1', '42', 'random'] if ctx.tier == 'quick' else ['0', '1', '2', '3', '7', '42', '1000', '4294967295'] + ['random'] * 24
     helper = HASH_HELPER % REPO
-    for s in seeds:
+    for s in (seeds if hash_inputs else []):
         env = dict(os.environ, PYTHONHASHSEED=s)
         pr = subprocess.run([sys.executable, '-c', helper], input='\n'.join(hash_inputs) + '\n', capture_output=True,
                             text=True, env=env, timeout=600)
